@@ -169,7 +169,7 @@ class gre (packet_base):
 
     def hdr (self, payload):
         if self.skip_csum: self.csum = None
-        flags = 0
+        flags = self.ver & 7
         if self.csum is not None: flags |= 0x8000
         if self.routing is not None: flags |= 0x4000
         if self.key is not None: flags |= 0x2000
